@@ -841,7 +841,10 @@ ConvergedAt(c, g) == cl[c][g].mls = "ok" /\ cl[c][g].chain = Winner(g)
 
 \* the statement's proviso: the fork c would have to cross is at most Retention / Lookback deep
 ForkDepth(c, g) == Len(cl[c][g].chain) - CommonPrefixLen(cl[c][g].chain, Winner(g), 0)
-InScope(c, g) == ForkDepth(c, g) <= Retention /\ ForkDepth(c, g) <= Lookback
+\* ... at any time: a client that has once been more than Retention commits past the fork point has lost the rollback point it
+\* would need, however far it is rolled back later (history operator, FALSE in the bounded instances, overridden by the trace spec)
+EverTooDeep(c, g) == FALSE
+InScope(c, g) == ForkDepth(c, g) <= Retention /\ ForkDepth(c, g) <= Lookback /\ ~EverTooDeep(c, g)
 
 \* finding C01-3: the first commit on which c left the winner chain was its own, applied with
 \* merge_pending_commit (no rollback point), and a better sibling was published
